@@ -14,9 +14,11 @@ def main():
         pass
     r = vlib.Run("setup", "quick", 0)
     r.known = []
-    ok = r.coq_build(["all"], timeout=3600)
+    # keep going: a property whose files do not build fails in its own check, not here
+    ok = r.coq_build(["-k", "all"], timeout=3600)
     print(r.build_log[-3000:])
+    core_ok = all((vlib.COQ / "Core" / (p.stem + ".vo")).exists() for p in (vlib.COQ / "Core").glob("*.v"))
     import shutil; shutil.rmtree(r.work, ignore_errors=True)
-    sys.exit(0 if ok else 1)
+    sys.exit(0 if (ok or core_ok) else 1)
 
 main()
